@@ -80,13 +80,12 @@ impl<'a> std::io::Seek for SlowSrc<'a> {
 
 macro_rules! long_driver {
     ($fname:ident, $m:ident, $posof:expr, $errjson:path) => {
-        fn $fname(fmt: &str, n: usize, cap: usize, crlf: bool, bad: bool, mode: &str, src: (usize, usize, usize)) -> String {
-            use seq_io::$m::Record as _;
+        fn $fname(fmt: &str, n: usize, cap: usize, crlf: bool, bad: bool, mode: &str, src: (usize, usize, usize), ctor: &str) -> String {
+            use std::io::Write as _;
             let x = render(fmt, n, crlf, bad);
             let sm = samples(n);
-            let r = std::panic::catch_unwind(std::panic::AssertUnwindSafe(|| {
-                let source = SlowSrc { inner: std::io::Cursor::new(&x[..]), chunk: if src.0 == 0 { usize::MAX } else { src.0 }, intr_every: src.1, burst: src.2, calls: 0 };
-                let mut rdr = seq_io::$m::Reader::with_capacity(source, cap);
+            fn inner<R: std::io::Read + std::io::Seek>(mut rdr: seq_io::$m::Reader<R, seq_io::policy::StdPolicy>, n: usize, mode: &str, sm: &[usize]) -> String {
+                use seq_io::$m::Record as _;
                 let mut obs: Vec<String> = vec![];
                 let mut count = 0usize;
                 let mut last = String::from("{\"k\":\"none\"}");
@@ -189,12 +188,30 @@ macro_rules! long_driver {
                     after_seek = format!("{{\"done\":true,\"ok\":{},\"target\":{},\"res\":{},\"line\":{},\"byte\":{},\"allocs_in_next\":{}}}", sr.is_ok(), seek_target, nx, l, b, seek_allocs);
                 }
                 format!("\"count\":{},\"last\":{},\"obs\":[{}],\"seek\":{},\"steady_allocs\":{}", count, last, obs.join(","), after_seek, steady_allocs)
+            }
+            let r = std::panic::catch_unwind(std::panic::AssertUnwindSafe(|| {
+                let source = SlowSrc { inner: std::io::Cursor::new(&x[..]), chunk: if src.0 == 0 { usize::MAX } else { src.0 }, intr_every: src.1, burst: src.2, calls: 0 };
+                match ctor {
+                    // the constructors: default capacity, and readers opened from a path
+                    "new" => inner(seq_io::$m::Reader::new(source), n, mode, &sm),
+                    "from_path" | "from_path_with_capacity" => {
+                        let path = std::env::temp_dir().join(format!("vharness-long-{}-{:?}.tmp", std::process::id(), std::thread::current().id()));
+                        {
+                            let mut f = std::fs::File::create(&path).unwrap();
+                            f.write_all(&x).unwrap();
+                        }
+                        let out = if ctor == "from_path" { inner(seq_io::$m::Reader::from_path(&path).unwrap(), n, mode, &sm) } else { inner(seq_io::$m::Reader::from_path_with_capacity(&path, cap).unwrap(), n, mode, &sm) };
+                        let _ = std::fs::remove_file(&path);
+                        out
+                    }
+                    _ => inner(seq_io::$m::Reader::with_capacity(source, cap), n, mode, &sm),
+                }
             }));
             let body = match r {
                 Ok(s) => format!("\"panic\":false,{}", s),
                 Err(_) => "\"panic\":true,\"count\":0,\"last\":{\"k\":\"panic\"},\"obs\":[],\"seek\":{\"done\":false},\"steady_allocs\":0".to_string(),
             };
-            format!("{{\"ev\":\"long\",\"fmt\":\"{}\",\"n\":{},\"cap\":{},\"crlf\":{},\"bad\":{},\"mode\":\"{}\",\"src\":[{},{},{}],{}}}", fmt, n, cap, crlf, bad, mode, src.0, src.1, src.2, body)
+            format!("{{\"ev\":\"long\",\"fmt\":\"{}\",\"n\":{},\"cap\":{},\"crlf\":{},\"bad\":{},\"mode\":\"{}\",\"ctor\":\"{}\",\"src\":[{},{},{}],{}}}", fmt, n, cap, crlf, bad, mode, ctor, src.0, src.1, src.2, body)
         }
     };
 }
@@ -541,7 +558,7 @@ pub fn cmd_long(out: &str, _seed: u64, thorough: bool) {
                         }
                         for mode in ["next", "set"] {
                             let (fm, md) = (fmt.to_string(), mode.to_string());
-                            let line = guarded(format!("long {} n={} cap={} {}", fmt, n, cap, mode), move || if fm == "fasta" { run_fasta(&fm, n, cap, crlf, bad, &md, (0, 0, 0)) } else { run_fastq(&fm, n, cap, crlf, bad, &md, (0, 0, 0)) });
+                            let line = guarded(format!("long {} n={} cap={} {}", fmt, n, cap, mode), move || if fm == "fasta" { run_fasta(&fm, n, cap, crlf, bad, &md, (0, 0, 0), "with_capacity") } else { run_fastq(&fm, n, cap, crlf, bad, &md, (0, 0, 0), "with_capacity") });
                             writeln!(f, "{}", line).unwrap();
                             cases += 1;
                         }
@@ -553,9 +570,20 @@ pub fn cmd_long(out: &str, _seed: u64, thorough: bool) {
     // one record set that holds more than 65 535 records (a buffer of 4 MiB)
     for fmt in ["fasta", "fastq"] {
         let fm = fmt.to_string();
-        let line = guarded(format!("long {} one big set", fmt), move || if fm == "fasta" { run_fasta(&fm, 70000, 4 << 20, false, false, "set", (0, 0, 0)) } else { run_fastq(&fm, 70000, 4 << 20, false, true, "set", (0, 0, 0)) });
+        let line = guarded(format!("long {} one big set", fmt), move || if fm == "fasta" { run_fasta(&fm, 70000, 4 << 20, false, false, "set", (0, 0, 0), "with_capacity") } else { run_fastq(&fm, 70000, 4 << 20, false, true, "set", (0, 0, 0), "with_capacity") });
         writeln!(f, "{}", line).unwrap();
         cases += 1;
+    }
+    // the other constructors: Reader::new (default capacity), from_path, from_path_with_capacity
+    for fmt in ["fasta", "fastq"] {
+        for ctor in ["new", "from_path", "from_path_with_capacity"] {
+            for mode in ["next", "set"] {
+                let (fm, md) = (fmt.to_string(), mode.to_string());
+                let line = guarded(format!("long {} {} {}", fmt, ctor, mode), move || if fm == "fasta" { run_fasta(&fm, 9000, 64, true, false, &md, (0, 0, 0), ctor) } else { run_fastq(&fm, 9000, 64, false, true, &md, (0, 0, 0), ctor) });
+                writeln!(f, "{}", line).unwrap();
+                cases += 1;
+            }
+        }
     }
     // a slow source: 100 bytes per call and an interruption before every second read (several hundred interruptions within
     // one refill of a 64 KiB buffer), or 300 interruptions in a row
@@ -563,7 +591,7 @@ pub fn cmd_long(out: &str, _seed: u64, thorough: bool) {
         for src in [(100usize, 2usize, 0usize), (0, 0, 300), (7, 3, 0)] {
             for mode in ["next", "set"] {
                 let (fm, md) = (fmt.to_string(), mode.to_string());
-                let line = guarded(format!("long {} slow source {:?} {}", fmt, src, mode), move || if fm == "fasta" { run_fasta(&fm, 8000, 65536, false, false, &md, src) } else { run_fastq(&fm, 8000, 65536, false, true, &md, src) });
+                let line = guarded(format!("long {} slow source {:?} {}", fmt, src, mode), move || if fm == "fasta" { run_fasta(&fm, 8000, 65536, false, false, &md, src, "with_capacity") } else { run_fastq(&fm, 8000, 65536, false, true, &md, src, "with_capacity") });
                 writeln!(f, "{}", line).unwrap();
                 cases += 1;
             }
